@@ -12,7 +12,7 @@ import (
 func init() {
 	register(&propDef{
 		id: "C30", run: runC30, minOblig: 14,
-		explanation: "Decides the strict-KEX (Terrapin) control structure by interpretation, independent of how the code is factored into helpers. (seq reset) connectionState.readPacket and .writePacket are interpreted (path walker, helpers of the package interpreted in place, the non-blocking receive of pending key material modelled) for every combination of {strict flag, packet empty/non-empty, packet type, key material pending}: the cipher is applied with the current sequence number and the current keys, the keys are swapped exactly on NEWKEYS with pending key material, and the sequence number afterwards is 0 exactly when the keys were swapped under the strict flag and old+1 otherwise; every caller passes the transport's own strictMode flag; connectionState.seqNum is written only by these two functions and helpers called only from them (who-may-write over package ssh), and only as seqNum+1 or 0. (activation) transport.setStrictMode, interpreted for read sequence numbers {0,1,2,3,2^32-1}, sets the flag and returns nil only for 1; handshakeTransport.enterKeyExchange is interpreted up to the point where no request is possible any more, for all 16 combinations of {first exchange, isClient, peer lists kex-strict-s, peer lists kex-strict-c}: setStrictMode is called (and handshakeTransport.strictMode set) exactly on the first exchange when the PEER's KEXINIT (the record Unmarshal fills from the packet parameter, followed through phis and helpers; membership decided for slices.Contains/slices.Index on the tagged list and, for hand-written loops, by giving both KexAlgos lists concrete two-element content) lists the peer-role marker; a failing setStrictMode aborts the exchange; sendKexInit puts exactly our role's marker into a list while sessionID == nil and none on a re-key (finite-domain evaluation over the function and its helpers). (no skipping) transport.readPacket, interpreted, reads a further packet exactly when the one just read is non-empty IGNORE/DEBUG and not (strict && !initialKEXDone); readLoop delivers a packet to the incoming channel within the iteration exactly when not IGNORE/DEBUG or (first exchange && strict); readOnePacket(first=true) has a non-error return reachable only for KEXINIT — the latter two by finite-domain evaluation in which helper parameters take their arguments' values and helper calls the value their reachable returns agree on; setInitialKEXDone and the nil return of enterKeyExchange are reachable only across the edge on which a packet read from the peer compared equal to NEWKEYS (interprocedural must-cross; a helper all of whose accepting returns lie behind that edge establishes it for its caller), and setInitialKEXDone is unreachable when sessionID != nil. NOT decided: that every injected/deleted packet breaks the cryptographic handshake (follows from sequence numbers entering the MAC, C25, plus these clauses).",
+		explanation: "Decides the strict-KEX (Terrapin) control structure by interpretation, independent of how the code is factored into helpers. (seq reset) connectionState.readPacket and .writePacket are interpreted (path walker, helpers of the package interpreted in place, deferred calls and closures interpreted when the function that deferred them returns, results spilled to local cells forwarded, the non-blocking receive of pending key material modelled) for every combination of {strict flag, packet empty/non-empty, packet type, key material pending}: the cipher is applied with the current sequence number and the current keys, the keys are swapped exactly on NEWKEYS with pending key material, and the sequence number afterwards is 0 exactly when the keys were swapped under the strict flag and old+1 otherwise; every caller passes the transport's own strictMode flag; connectionState.seqNum is written only by these two functions and helpers called only from them (who-may-write over package ssh), and only as seqNum+1 or 0. (activation) transport.setStrictMode, interpreted for read sequence numbers {0,1,2,3,2^32-1}, sets the flag and returns nil only for 1; handshakeTransport.enterKeyExchange is interpreted up to the point where no request is possible any more, for all 16 combinations of {first exchange, isClient, peer lists kex-strict-s, peer lists kex-strict-c}: setStrictMode is called (and handshakeTransport.strictMode set) exactly on the first exchange when the PEER's KEXINIT (the record Unmarshal fills from the packet parameter, followed through phis and helpers; membership decided for slices.Contains/slices.Index on the tagged list and, for hand-written loops, by giving both KexAlgos lists concrete two-element content) lists the peer-role marker; a failing setStrictMode aborts the exchange; sendKexInit puts exactly our role's marker into a list while sessionID == nil and none on a re-key (finite-domain evaluation over the function and its helpers). (no skipping) transport.readPacket, interpreted, reads a further packet exactly when the one just read is non-empty IGNORE/DEBUG and not (strict && !initialKEXDone); readLoop delivers a packet to the incoming channel within the iteration exactly when not IGNORE/DEBUG or (first exchange && strict); readOnePacket(first=true) has a non-error return reachable only for KEXINIT — the latter two by finite-domain evaluation in which helper parameters take their arguments' values and helper calls the value their reachable returns agree on; setInitialKEXDone and the nil return of enterKeyExchange are reachable only across the edge on which a packet read from the peer compared equal to NEWKEYS (interprocedural must-cross; a helper all of whose accepting returns lie behind that edge establishes it for its caller), and setInitialKEXDone is unreachable when sessionID is non-nil/non-empty (`== nil` and `len(..) == 0` tests read the same). NOT decided: that every injected/deleted packet breaks the cryptographic handshake (follows from sequence numbers entering the MAC, C25, plus these clauses).",
 		assumptions: []string{"message type constants msgIgnore/msgDebug/msgNewKeys/msgKexInit as declared in the package", "struct field names of connectionState/transport/handshakeTransport (seqNum, packetCipher, pendingKeyChange, strictMode, initialKEXDone, sessionID, hostKeys, sentInitMsg, incoming) identify the state; parameters are identified by type and provenance, locals not at all"},
 	})
 	tech("C30", "abstract interpretation (path walker with helpers interpreted in place) of the sequence-number/strict-mode state machine + interprocedural finite-domain evaluation of flag/packet-type conditions + interprocedural must-cross + who-may-write table")
@@ -114,7 +114,7 @@ func c30SeqReset(c *Ctx, k c30Consts) {
 							w.env.bind(pkt, ln)
 							w.off[pkt] = p0
 						}
-						w.onCall = func(w *pathWalker, ci ssa.CallInstruction) string {
+						c30OnCall(w, tr, func(w *pathWalker, ci ssa.CallInstruction) string {
 							cc := ci.Common()
 							if !c30IsCipherInvoke(cc) {
 								return ""
@@ -138,13 +138,13 @@ func c30SeqReset(c *Ctx, k c30Consts) {
 								}
 							}
 							return ev
-						}
+						})
 						w.onExtract = func(w *pathWalker, ex *ssa.Extract) {
 							if call, ok := ex.Tuple.(*ssa.Call); ok && ex.Index == 0 && c30IsCipherInvoke(&call.Call) {
 								w.off[ex] = p0
 							}
 						}
-						end := w.walk(f.Blocks[0], nil)
+						end := c30Run(w, tr, f)
 						n++
 						seq := w.state[recv+".seqNum"]
 						ciph := w.state[recv+".packetCipher"]
@@ -210,7 +210,7 @@ func c30StrictArg(c *Ctx, f *ssa.Function, name string, idx int) {
 			tr := newC30Trace()
 			w := c30Walker(caller, tr, map[string]bool{f.Name(): true}, nil)
 			w.state[caller.Params[0].Name()+".strictMode"] = v
-			w.onCall = func(w *pathWalker, ci ssa.CallInstruction) string {
+			c30OnCall(w, tr, func(w *pathWalker, ci ssa.CallInstruction) string {
 				cc := ci.Common()
 				if cc.StaticCallee() != f || idx >= len(cc.Args) {
 					return ""
@@ -219,8 +219,8 @@ func c30StrictArg(c *Ctx, f *ssa.Function, name string, idx int) {
 					return fmt.Sprintf("strictarg=%d", a)
 				}
 				return "strictarg=?"
-			}
-			w.walk(caller.Blocks[0], nil)
+			})
+			c30Run(w, tr, caller)
 			n++
 			ev, found := c30HasEvent(w, "strictarg=")
 			switch {
@@ -244,7 +244,7 @@ func c30SeqWriters(c *Ctx) {
 	allowed := map[*ssa.Function]bool{}
 	for _, r := range []*ssa.Function{rd, wr} {
 		if r != nil {
-			for _, g := range deepFuncs(r) {
+			for _, g := range c30Callees(r) {
 				allowed[g] = true
 			}
 		}
@@ -304,7 +304,7 @@ func c30SetStrict(c *Ctx) {
 		w := c30Walker(f, tr, nil, nil)
 		w.state[recv+".reader.seqNum"] = d
 		w.state[recv+".strictMode"] = 0
-		end := w.walk(f.Blocks[0], nil)
+		end := c30Run(w, tr, f)
 		flag := w.state[recv+".strictMode"]
 		e, eok := c30ErrVal(w, 0)
 		switch {
@@ -406,7 +406,7 @@ func c30Enter(c *Ctx, k c30Consts) {
 		w.state[recv+".sessionID"] = 1 - first
 		w.state[recv+".strictMode"] = 0
 		w.cls[pktParam] = "peerpacket"
-		w.onCall = func(w *pathWalker, ci ssa.CallInstruction) string {
+		c30OnCall(w, tr, func(w *pathWalker, ci ssa.CallInstruction) string {
 			cc := ci.Common()
 			name := short(calleeName(cc))
 			switch {
@@ -449,9 +449,9 @@ func c30Enter(c *Ctx, k c30Consts) {
 				return fmt.Sprintf("setStrict:flag=%d", flag)
 			}
 			return ""
-		}
+		})
 		o := outcome{}
-		o.end = w.walk(f.Blocks[0], nil)
+		o.end = c30Run(w, tr, f)
 		o.why = w.why
 		_, o.requested = c30HasEvent(w, "setStrict:")
 		o.flag = w.state[recv+".strictMode"]
@@ -659,7 +659,7 @@ func c30Enter(c *Ctx, k c30Consts) {
 	c.mustCrossDeep("C30.newkeys-gate", "setInitialKEXDone after peer NEWKEYS", f, setDone, nk, "the peer's next packet == NEWKEYS")
 	// only in the first exchange
 	d := c30DeepSolve(f, func(e *penv, g *ssa.Function) {
-		e.bindField(g, "handshakeTransport", "sessionID", 1)
+		c30BindNilField(e, g, "handshakeTransport", "sessionID", 1)
 	})
 	at := deepReach(f, d.cut, isSetDone)
 	c.check(at == nil, "C30.newkeys-gate", "setInitialKEXDone only in the first exchange", setDone[0], "unreachable when sessionID != nil", "setInitialKEXDone is reachable during a re-key")
@@ -692,7 +692,7 @@ func c30OwnMarker(c *Ctx) {
 	for first := int64(0); first < 2; first++ {
 		for server := int64(0); server < 2; server++ {
 			d := c30DeepSolve(f, func(e *penv, g *ssa.Function) {
-				e.bindField(g, "handshakeTransport", "sessionID", 1-first)
+				c30BindNilField(e, g, "handshakeTransport", "sessionID", 1-first)
 				e.bindField(g, "handshakeTransport", "sentInitMsg", 0)
 				c30BindLenField(e, g, "handshakeTransport", "hostKeys", server)
 			})
@@ -746,7 +746,7 @@ func c30SkipTransport(c *Ctx, k c30Consts) {
 					w.state[recv+".initialKEXDone"] = done
 					reads := 0
 					types := map[*ssa.Call]int64{}
-					w.onCall = func(w *pathWalker, ci ssa.CallInstruction) string {
+					c30OnCall(w, tr, func(w *pathWalker, ci ssa.CallInstruction) string {
 						call, ok := ci.(*ssa.Call)
 						if !ok || call.Call.StaticCallee() != inner {
 							return ""
@@ -761,7 +761,7 @@ func c30SkipTransport(c *Ctx, k c30Consts) {
 							types[call] = 90
 						}
 						return "read"
-					}
+					})
 					w.onExtract = func(w *pathWalker, ex *ssa.Extract) {
 						if call, ok := ex.Tuple.(*ssa.Call); ok && ex.Index == 0 {
 							if t, ok := types[call]; ok {
@@ -769,7 +769,7 @@ func c30SkipTransport(c *Ctx, k c30Consts) {
 							}
 						}
 					}
-					end := w.walk(f.Blocks[0], nil)
+					end := c30Run(w, tr, f)
 					n++
 					seen := 0
 					for _, ev := range c30Events(w) {
@@ -839,7 +839,7 @@ func c30SkipReadLoop(c *Ctx, k c30Consts) {
 			for _, p0 := range []int64{k.ignore, k.debug, k.newKeys, 1, 3, 5, 90} {
 				d := c30DeepSolve(f, func(e *penv, g *ssa.Function) {
 					e.bindField(g, "handshakeTransport", "strictMode", strict)
-					e.bindField(g, "handshakeTransport", "sessionID", 1-first)
+					c30BindNilField(e, g, "handshakeTransport", "sessionID", 1-first)
 					c30BindPacket(e, g, pkt, 1, p0)
 					for _, ev := range errs {
 						e.bind(ev, 0)
